@@ -19,6 +19,8 @@
 (*           only against a responder session of the target's owner that   *)
 (*           sent its step 4 with the same ephemeral pair (the peer        *)
 (*           endpoint holds sk(target))                                    *)
+(*  FreshOK  no two sessions of a run put the same ephemeral key on the    *)
+(*           wire (what makes a proof belong to "this very session")       *)
 (*  AckOK    a responder does not complete on a well-formed acknowledge    *)
 (*           that says success = false                                     *)
 (*  CompleteOK  frames relayed unmodified, all five, between a requester   *)
@@ -64,6 +66,7 @@ ReqOK(r) == (S[r].role = "req" /\ S[r].ret = "ok" /\ S[r].target # "E") =>
                \/ Excused(r)
 AckOK(s) == (S[s].role = "rsp" /\ S[s].ret = "ok") =>
               ~(Len(S[s].in) = 3 /\ S[s].in[3] = "I:ack-")
+FreshOK == \A i \in Idx, j \in Idx : (i # j /\ S[i].oeh # "-") => S[i].oeh # S[j].oeh
 Relayed(r, s) == /\ S[r].in = <<F(s, 1), F(s, 2)>>
                  /\ S[s].in = <<F(r, 1), F(r, 2), F(r, 3)>>
 CompleteOK == \A r \in Idx, s \in Idx :
@@ -73,7 +76,7 @@ CompleteOK == \A r \in Idx, s \in Idx :
 MReset == Consume("reset")
 MFin == /\ Consume("fin")
         /\ \A i \in Idx : RespOK(i) /\ ReqOK(i) /\ AckOK(i)
-        /\ CompleteOK
+        /\ FreshOK /\ CompleteOK
 
 MNext == MReset \/ MFin
 MInit == l = 1 /\ TLCSet(42, 1)
